@@ -25,7 +25,7 @@ def inWin (a b : Int) (s : Sample) : Bool := decide (a ≤ s.1) && decide (s.1 <
 
 /-- The small error enum of the protocol (messages are not compared). -/
 inductive Err where
-  | index | value | runtime | notImpl | type | zeroDiv
+  | index | value | runtime | notImpl | type | zeroDiv | overflow
 deriving Repr, DecidableEq
 
 /-! ### Sources -/
@@ -295,6 +295,39 @@ def like (pw : Bool) (f : List Rat → Rat) (s ref : Src) : Except Err (List Sam
           | _, _ => .error .index
       | _, _, _ => .error .index
 
+/-- Executable form of the hypothesis "isolated frame-rate changes" (`IsolatedGrowth` in Lemmas): a reference
+    period longer than its predecessor is never followed by a still longer one. -/
+def isolatedGrowthB (d : List Int) : Bool :=
+  (List.range d.length).all fun j =>
+    !(decide (1 ≤ j) && decide (j + 1 < d.length) && decide (d.getD (j - 1) 0 < d.getD j 0)) ||
+      decide (d.getD (j + 1) 0 ≤ d.getD j 0)
+
+/-! ### `int(1e9 / frequency)`: the Hz → ns conversion of `downsampled_to` (executed on doubles) -/
+
+/-- `int(1e9 / frequency)` for a Python float: `ZeroDivisionError` for 0, `ValueError` for nan
+    (`int(nan)`), `OverflowError` for an infinite quotient, truncation toward zero otherwise.
+    `none`: quotient beyond 2^62 (outside the model). -/
+def targetOfFreq (fq : Float) : Option (Except Err Int) :=
+  if fq == 0 then some (.error .zeroDiv)
+  else
+    let q := (1000000000 : Float) / fq
+    if q.isNaN then some (.error .value)
+    else if q.isInf then some (.error .overflow)
+    else if q.abs ≥ 4611686018427387904 then none
+    else some (.ok q.toInt64.toInt)
+
+/-- `downsampled_to(frequency, …)` from the frequency itself.  An unknown method is refused before the
+    conversion is attempted. -/
+def downToFreq (f : List Rat → Rat) (s : Src) (fq : Float) (m : Option Method) (wh : Option Bool) :
+    Option (Except Err (List Sample)) :=
+  match m with
+  | none => some (.error .value)
+  | some m =>
+    match targetOfFreq fq with
+    | none => none
+    | some (.error e) => some (.error e)
+    | some (.ok t) => some (downTo f s t (some m) wh)
+
 /-! ### arithmetic -/
 
 inductive Op where
@@ -347,6 +380,7 @@ def showErr : Err → String
   | .notImpl => "NotImplementedError"
   | .type => "TypeError"
   | .zeroDiv => "Error:ZeroDivisionError"
+  | .overflow => "Error:OverflowError"
 
 def showSamples (l : List Sample) : String :=
   showList (fun (s : Sample) => toString s.1 ++ ":" ++ showRat s.2) l
@@ -402,6 +436,23 @@ def handleLike (pw : Bool) (rest : List String) : Option String := do
         some ("ok [" ++ ",".intercalate shown ++ "] " ++ showIntList (refc.map (·.1)))
   | _ => none
 
+/-- `c04.likewins <src> <refsrc>`: the windows `downsampled_like` hands to `reduce`, as the code is
+    (`pw = true`): `ok <isolated growth T/F> [T|v,v,…;…]` -/
+def handleLikeWins (rest : List String) : Option String := do
+  let (s, rest) ← mkSrc? rest
+  let (ref, rest) ← mkSrc? rest
+  if rest ≠ [] then none
+  else match like true (fun _ => 0) s ref with
+    | .error e => some (showErr e)
+    | .ok _ =>
+      match s, ref with
+      | .cont c, .ts rl =>
+        let T := rl.map (·.1)
+        some ("ok " ++ showBool (isolatedGrowthB (diff T)) ++ " [" ++
+          ";".intercalate ((likeWindows true c T).map fun w =>
+            toString w.1 ++ "|" ++ ",".intercalate (w.2.map showRat)) ++ "]")
+      | _, _ => none
+
 def rule? (s : String) : Option Rule := do
   match ← intList? s with
   | [a, b, w, m, c, den] =>
@@ -440,6 +491,10 @@ def handleWin (isTo : Bool) (rest : List String) : Option String :=
   `c04.like <src> <reduce> <refsrc>`          values of empty windows are printed as `E`
   `c04.likepw <src> <reduce> <refsrc>`        the same with the proposed repair of the start index (F9)
   `c04.arith <op> <srcA> <srcB>`
+  `c04.likewins <src> <refsrc>`              the windows handed to `reduce` by `downsampled_like` + isolated-growth flag
+  `c04.getitem <src> <a> <b>`                `self[a:b]` as used inside the downsampling loops
+  `c04.tof <src> <reduce> <where> <method> <frequency bits>`   `downsampled_to` from the frequency (double)
+  `c04.step <frequency bits>`                `int(1e9 / frequency)`
   `c04.repair [d…]`                          the change-point repair alone
   where `<src>` is `cont <start> <dt> [v…]` or `ts [t…] [v…]` (values `p/q`). -/
 def handle : List String → Option String
@@ -472,6 +527,27 @@ def handle : List String → Option String
       | .ok c => some ("ok " ++ toString c.dt ++ " " ++ showSamples c.samples)
       | .error e => some (showErr e)
     | _ => none
+  | "c04.likewins" :: rest => handleLikeWins rest
+  | "c04.getitem" :: rest => do
+    let (s, rest) ← mkSrc? rest
+    match rest with
+    | [a, b] =>
+      let a ← int? a; let b ← int? b
+      some ("ok " ++ showSamples (s.getitem a b).samples)
+    | _ => none
+  | "c04.tof" :: rest => do
+    let (s, rest) ← mkSrc? rest
+    match rest with
+    | [r, w, m, fq] =>
+      let r ← reduce? r
+      let fq ← float? fq
+      (downToFreq r.apply s fq (method? m) (where? w)).map showRes
+    | _ => none
+  | ["c04.step", fq] => do
+    let fq ← float? fq
+    match ← targetOfFreq fq with
+    | .ok t => some ("ok " ++ toString t)
+    | .error e => some (showErr e)
   | "c04.like" :: rest => handleLike false rest
   | "c04.likepw" :: rest => handleLike true rest
   | "c04.arith" :: o :: rest => do
